@@ -121,6 +121,21 @@ func LoadRepo(dir string, patterns []string, overlay map[string][]byte) (*Loaded
 			}
 		}
 	}
+	// instances of generic functions and methods of the repo (created on demand by InstantiateGenerics)
+	inRepo := map[*types.Package]bool{}
+	for _, sp := range ld.ssaPkgs {
+		inRepo[sp.Pkg] = true
+	}
+	var insts []*ssa.Function
+	for f := range ssautil.AllFunctions(prog) {
+		if o := f.Origin(); o != nil && o != f && f.Blocks != nil && o.Pkg != nil && inRepo[o.Pkg.Pkg] {
+			insts = append(insts, f)
+		}
+	}
+	sort.Slice(insts, func(i, j int) bool { return insts[i].String() < insts[j].String() })
+	for _, f := range insts {
+		ld.indexFunc(f)
+	}
 	return ld, nil
 }
 
